@@ -526,9 +526,61 @@ pub fn run_c17(run: &mut Run) -> Stats {
     let tier = run.tier;
     let values = c17_values(tier);
     let prop = run.prop.clone();
-    run.rule = "Accept-Encoding values {absent, empty, every C16 list of <= 2 elements, 20 hand-picked 3-element / malformed values} x gzip level 0..9 x chunk size {1, 7, 4096} x methods {GET, HEAD, POST} x request given as http::Request and as http::request::Parts x writer histories {write_all(n); flush; drop for n in {0, 300}; drop only; flush, drop; write_all(300), drop; write(6), write_all(3000), write_all(7), drop; 40 x write_all(17), flush, write_all(1), drop; write_vectored(20 bytes in three slices) twice, flush, write_vectored(5), drop} (the last six at levels 0, 1, 6, 9). Oracle: Vary names accept-encoding; Content-Encoding: gzip iff (independent evaluator prefers gzip) and level > 0, never another coding; body sniffed by the independent decoder: says gzip <=> exactly one gzip member of the payload, otherwise the payload verbatim; both request representations give identical headers; HEAD: same headers, no writer, empty body; earlier builder calls that are overridden, and the two final builder calls in either order, must not matter; other request headers (Cache-Control: no-transform, Range, TE, Content-Encoding, User-Agent ...) must not matter. non-trivial = distinct (Accept-Encoding, level, chunk, method, representation, payload)".into();
+    run.rule = "Accept-Encoding values {absent, empty, every C16 list of <= 2 elements, 20 hand-picked 3-element / malformed values} x gzip level 0..9 x chunk size {1, 7, 4096} x methods {GET, HEAD, POST} x request given as http::Request and as http::request::Parts x writer histories {write_all(n); flush; drop for n in {0, 300}; drop only; flush, drop; write_all(300), drop; write(6), write_all(3000), write_all(7), drop; 40 x write_all(17), flush, write_all(1), drop; write_vectored(20 bytes in three slices) twice, flush, write_vectored(5), drop} (the last six at levels 0, 1, 6, 9). Oracle: Vary names accept-encoding; Content-Encoding: gzip iff (independent evaluator prefers gzip) and level > 0, never another coding; body sniffed by the independent decoder: says gzip <=> exactly one gzip member of the payload, otherwise the payload verbatim; both request representations give identical headers; HEAD: same headers, no writer, empty body; earlier builder calls that are overridden, and the two final builder calls in either order, must not matter; other request headers (Cache-Control: no-transform, Range, TE, Content-Encoding, User-Agent ...) must not matter; every ordered pair of 20 Accept-Encoding values (differing in letter case, weight spelling, one character) as two requests on one thread: the second answer is judged as usual and must equal the answer on a fresh thread. non-trivial = distinct (Accept-Encoding, level, chunk, method, representation, payload)".into();
     run.bounds = json!({"accept_encoding_values": values.len(), "levels": 10, "chunk_sizes": [1, 7, 4096], "methods": 3});
-    par_for(values.len() as u64, threads(), |i, st| {
+    // Histories of two negotiations on ONE thread: what streaming_body answers for a request must
+    // not depend on the request this thread served before it (a memo keyed too loosely, a cached
+    // verdict). Values that differ only in letter case, in the spelling of a weight, in one
+    // character are next to each other here; each second answer is judged by the usual oracle and
+    // compared with the answer the same request gets on a fresh thread.
+    let mut seq = Stats::new();
+    {
+        let vals: Vec<Option<String>> = [
+            Some("gzip"), Some("GZIP"), Some("Gzip"), Some("gzip "), Some("identity"), Some("gzip;q=0.5, identity;q=0.6"), Some("gzip;Q=0.5, identity;q=0.6"), Some("gzip;q=0.6, identity;q=0.5"),
+            Some("GZIP;q=1"), Some("*"), Some("*;q=0"), Some("br"), Some(""), None, Some("gzip;q=0"), Some("gzip;q=0.0"), Some("gzip;q=0.001"), Some("identity;q=0"), Some("gzip, identity;q=0"), Some("x-gzip"),
+        ]
+        .iter()
+        .map(|v| v.map(|s| s.to_string()))
+        .collect();
+        let alone: Vec<Option<String>> = vals.iter().map(|b| std::thread::scope(|sc| sc.spawn(|| c17_case(b, 6, 7, "GET", false, 0, &mut Vec::new())).join().unwrap_or(None))).collect();
+        let mut k = 0u64;
+        for (ai, a) in vals.iter().enumerate() {
+            for (bi, b) in vals.iter().enumerate() {
+                if ai == bi {
+                    continue;
+                }
+                for level in [6u32, 0] {
+                    k += 1;
+                    let (rb, fs) = std::thread::scope(|sc| {
+                        sc.spawn(|| {
+                            let _ = c17_case(a, 6, 7, "GET", false, 0, &mut Vec::new());
+                            let mut fs = Vec::new();
+                            let r = c17_case(b, level, 7, "GET", false, 0, &mut fs);
+                            (r, fs)
+                        })
+                        .join()
+                        .unwrap_or((None, Vec::new()))
+                    });
+                    seq.evaluations += 2;
+                    seq.nontrivial(&("c17-seq", a, b, level));
+                    seq.count("two_negotiations_on_one_thread", 1);
+                    let s0 = seq.state(&("c17-seq", prefers_gzip(a.as_ref().map(|s| s.as_bytes())), prefers_gzip(b.as_ref().map(|s| s.as_bytes()))));
+                    let s1 = seq.state(&("c17-seq-out", rb.as_ref().and_then(|r| r.split('|').next().map(|s| s.to_string()))));
+                    seq.transition(s0, level as u64, s1);
+                    seq.outcome(format!("after-another-request/{}", rb.as_ref().and_then(|r| r.split('|').next()).unwrap_or("none")));
+                    for f in fs {
+                        if f.props.contains(&prop.as_str()) {
+                            seq.violation((1 << 62) + k, format!("{}:after-another-request", f.key), format!("{} (the thread had served Accept-Encoding {a:?} just before)", f.msg), || json!({"engine": "neg_mc_c17", "accept_encoding": b, "level": level, "chunk": 7, "method": "GET", "as_parts": false, "payload_len": 0, "previous_accept_encoding": a}));
+                        }
+                    }
+                    if level == 6 && rb != alone[bi] && prop == "C17" {
+                        seq.violation((1 << 62) + k, "depends-on-earlier-request".into(), format!("Accept-Encoding {b:?} right after a request with {a:?} on the same thread gives {:?}; on a fresh thread it gives {:?}", rb.as_ref().and_then(|r| r.split('|').next()), alone[bi].as_ref().and_then(|r| r.split('|').next())), || json!({"engine": "neg_mc_c17", "accept_encoding": b, "level": 6, "chunk": 7, "method": "GET", "as_parts": false, "payload_len": 0, "previous_accept_encoding": a}));
+                    }
+                }
+            }
+        }
+    }
+    let mut total = par_for(values.len() as u64, threads(), |i, st| {
         let ae = &values[i as usize];
         let mut order = i << 32;
         for level in 0..=9u32 {
@@ -631,7 +683,9 @@ pub fn run_c17(run: &mut Run) -> Stats {
                 }
             }
         }
-    })
+    });
+    total.merge(seq);
+    total
 }
 
 pub fn replay(case: &serde_json::Value, prop: &str) -> i32 {
@@ -649,6 +703,16 @@ pub fn replay(case: &serde_json::Value, prop: &str) -> i32 {
     }
     let ae = case["accept_encoding"].as_str().map(|s| s.to_string());
     let mut fs = Vec::new();
+    // a history of two requests on one thread: serve the earlier one first (replay runs on the
+    // main thread, which has served nothing else)
+    let mut alone: Option<Option<String>> = None;
+    if case.get("previous_accept_encoding").is_some() {
+        let (ae2, lv, ch, me) = (ae.clone(), case["level"].as_u64().unwrap() as u32, case["chunk"].as_u64().unwrap() as usize, case["method"].as_str().unwrap().to_string());
+        alone = Some(std::thread::spawn(move || c17_case(&ae2, lv, ch, &me, false, 0, &mut Vec::new())).join().unwrap_or(None));
+        let prev = case["previous_accept_encoding"].as_str().map(|s| s.to_string());
+        let _ = c17_case(&prev, 6, 7, "GET", false, 0, &mut Vec::new());
+        println!("(served Accept-Encoding {prev:?} on this thread first)");
+    }
     let r = c17_case(
         &ae,
         case["level"].as_u64().unwrap() as u32,
@@ -660,6 +724,12 @@ pub fn replay(case: &serde_json::Value, prop: &str) -> i32 {
     );
     println!("outcome: {r:?}");
     let mut bad = false;
+    if let Some(a) = alone {
+        if a != r {
+            println!("VIOLATED [C17] depends-on-earlier-request: on a fresh thread the same request gives {a:?}");
+            bad |= prop == "C17";
+        }
+    }
     for f in fs {
         let mine = f.props.contains(&prop);
         println!("{} [{}] {}: {}", if mine { "VIOLATED" } else { "(other property)" }, f.props.join(","), f.key, f.msg);
